@@ -183,6 +183,11 @@ theorem intersectCircleRaysN_eq (ray : Fin m → Ray α) (plane : Tri α) (centr
        if decide (radius < Vec3.norm ((pairHitN (ray i) plane).point - centre)) = true then Num.ofNat 0
        else (pairHitN (ray i) plane).distance⟩ := rfl
 
+/-- `reflect` with mixed sizes (both APIs): n rays at one normal, one ray at n normals -/
+theorem reflectMixed_eq {n : Nat} [NeZero n] (rays nrms : Fin n → Ray α) (r nrm : Ray α) (i : Fin n) :
+    reflectRaysT rays nrm i = reflectT (rays i) nrm ∧ reflectNormalsT r nrms i = reflectT r (nrms i) ∧
+    reflectRaysN rays nrm i = reflectN (rays i) nrm ∧ reflectNormalsN r nrms i = reflectN r (nrms i) := ⟨rfl, rfl, rfl, rfl⟩
+
 /-- NumPy `intersect_w_triangle` (one ray): the NumPy plane hit when the three-sided `same_side` test accepts the hit point,
     `0, 0` (`none`) otherwise -/
 theorem intersectTriangleN_eq (r : Ray α) (t : Tri α) :
